@@ -6,6 +6,11 @@
   `(...) = mods[filename]` binds `template_source` at the same position (repair bcd673d).  Without it the
   records of alternating templates (A, B, A) carry another template's source.
 
+* `moduleDirectoryPathAbsolute` / `moduleFilenamePathAbsolute` - in `Template.__init__` (mako/template.py) the module
+  path of the `module_directory` branch / of the `module_filename` branch is `os.path.abspath(...)` of something.
+  CPython reports an imported module file (traceback frames, compile warnings) under its absolute path, while
+  `ModuleInfo._modules` and `_translate_module_warnings` are keyed by the path `Template.__init__` computed.
+
 A shape that is not recognised makes the flag `false` (the named obligation `mods_cache_keeps_source` in
 Props/C12.lean then fails); only a missing class/function is a RegenError.
 """
@@ -41,9 +46,44 @@ def gen(repo):
                 unpacked = _names(node.targets[0])
     keeps = bool(n_store == 1 and n_unpack == 1 and stored and unpacked and stored == unpacked
                  and "template_source" in stored)
-    return (HEADER % "mako/exceptions.py (RichTraceback._init)"
+    # Template.__init__: `if module_filename is not None: path = X  elif module_directory is not None: path = Y`
+    rel2 = "mako/template.py"
+    tinit = find_func(find_class(parse(repo, rel2), "Template", rel2).body, "__init__", rel2)
+
+    def is_abspath(v):
+        return (isinstance(v, ast.Call) and isinstance(v.func, ast.Attribute) and v.func.attr == "abspath"
+                and len(v.args) == 1)
+
+    def test_name(t):
+        # `<name> is not None`
+        if (isinstance(t, ast.Compare) and isinstance(t.left, ast.Name) and len(t.ops) == 1
+                and isinstance(t.ops[0], ast.IsNot)):
+            return t.left.id
+        return None
+
+    def path_value(body):
+        vals = [n.value for n in body if isinstance(n, ast.Assign) and len(n.targets) == 1
+                and isinstance(n.targets[0], ast.Name) and n.targets[0].id == "path"]
+        return vals[0] if len(vals) == 1 and len(body) == 1 else None
+    dir_abs = file_abs = None
+    for node in ast.walk(tinit):
+        if isinstance(node, ast.If) and test_name(node.test) == "module_filename":
+            v = path_value(node.body)
+            if v is not None and file_abs is None:
+                file_abs = is_abspath(v)
+            if len(node.orelse) == 1 and isinstance(node.orelse[0], ast.If) \
+                    and test_name(node.orelse[0].test) == "module_directory":
+                v2 = path_value(node.orelse[0].body)
+                if v2 is not None and dir_abs is None:
+                    dir_abs = is_abspath(v2)
+    return (HEADER % "mako/exceptions.py (RichTraceback._init), mako/template.py (Template.__init__)"
             + "namespace MakoModel.Generated.TbCfg\n\n"
             + "/-- the per-file cache `mods` of `_init` stores and restores `template_source`\n"
             + "    (stored: %s; unpacked on a hit: %s) -/\n" % (stored, unpacked)
             + "def modsCacheKeepsSource : Bool := %s\n\n" % ("true" if keeps else "false")
+            + "/-- the module path of the `module_directory` branch of `Template.__init__` is `os.path.abspath(…)` -/\n"
+            + "def moduleDirectoryPathAbsolute : Bool := %s\n\n" % ("true" if dir_abs else "false")
+            + "/-- the module path of the `module_filename` branch (also `TemplateLookup(modulename_callable=…)`) is\n"
+            + "    `os.path.abspath(…)` -/\n"
+            + "def moduleFilenamePathAbsolute : Bool := %s\n\n" % ("true" if file_abs else "false")
             + "end MakoModel.Generated.TbCfg\n")
